@@ -6,7 +6,7 @@ import ast
 import re
 
 from ..cfg import cfg_of
-from ..core import named_args, seq, AnalysisError, call_name, unparse, walk_no_nested
+from ..core import inline_locals, named_args, seq, AnalysisError, call_name, unparse, walk_no_nested
 from ..pattern import _parse, body_is, find, find_expr, has, has_expr, m_node
 from ..report import Ctx
 
@@ -169,15 +169,38 @@ if SEPARATOR in name or SELECTION_SEPARATOR in name:
 
     CC = prog.cls('controller', 'CentralController')
     ci = CC.methods['__init__']
-    b = find(ci.node, """
-_SET = expression.get_all_controllers()
-self.controllers = tuple(sorted(_SET))
-___
-_STATES = __STATES
+    COUNTS = ["""
 if _STATES:
     self._number_of_configurations = reduce(lambda _X, _Y: _X * _Y, map(len, _STATES))
 else:
     self._number_of_configurations = 0
+""", """
+if _STATES:
+    self._number_of_configurations = math.prod(map(len, _STATES))
+else:
+    self._number_of_configurations = 0
+""", """
+if _STATES:
+    self._number_of_configurations = math.prod([len(_S) for _S in _STATES])
+else:
+    self._number_of_configurations = 0
+""", """
+if _STATES:
+    _T = 1
+    for _S in _STATES:
+        _T *= len(_S)
+    self._number_of_configurations = _T
+else:
+    self._number_of_configurations = 0
+"""]
+    b = None
+    for count in COUNTS:
+        b = b or find(ci.node, """
+_SET = expression.get_all_controllers()
+self.controllers = tuple(sorted(_SET))
+___
+_STATES = __STATES
+""" + count.strip('\n') + """
 ___
 if self.number_of_configurations() > maximum_number_of_configurations:
     self.all_configurations_ids = None
@@ -246,11 +269,13 @@ return (_N, step)
         c = cfg_of(f.node)
         setc = [n for n in walk_no_nested(f.node) if isinstance(n, ast.Expr) and unparse(n.value) == 'self.set_configuration(current_config)']  # current_config is a parameter
         mods = [n for n in walk_no_nested(f.node) if isinstance(n, ast.Call) and call_name(n) == 'modify_controller']
-        getc = [n for n in walk_no_nested(f.node) if isinstance(n, ast.Assign) and unparse(n.value) == 'self.get_configuration()']
+        # the configuration is read once, after every move, and is the first element of what every return hands back
+        # (through a local or directly)
+        getc = [n for n in walk_no_nested(f.node) if isinstance(n, ast.Call) and unparse(n) == 'self.get_configuration()']
         ok = len(setc) == 1 and bool(mods) and len(getc) == 1 and all(c.dominates(c.node_of(setc[0]), c.node_of(m)) for m in mods) and all(seq(m) < seq(getc[0]) for m in mods)
         ok = ok and all(named_args(m).get('circular') == 'True' for m in mods)
         rets = [n for n in walk_no_nested(f.node) if isinstance(n, ast.Return)]
-        ok = ok and all(unparse(r.value).startswith(f'({unparse(getc[0].targets[0])},') for r in rets)
+        ok = ok and all(isinstance(r.value, ast.Tuple) and r.value.elts and unparse(inline_locals(f.node, r.value.elts[0])) == 'self.get_configuration()' for r in rets)
         # positive part: no move before the whole configuration handed in has been applied
         if mods and not (len(setc) >= 1 and all(any(c.dominates(c.node_of(s_), c.node_of(m)) for s_ in setc) for m in mods)):
             ctx.add('C16.T4', f'CentralController.{name}:starts-from-argument', False, f,
@@ -306,7 +331,6 @@ else:
         ___
         raise BiogemeError(__MSG)
 """)
-    from ..core import inline_locals
 
     ok = None
     why = 'shape not recognised - expected: names = [member names]; own controller built from them, or a shared controller whose specification_names are compared with them'
